@@ -42,6 +42,11 @@ pub open spec fn group_mirrors_mls(w: World, g: GroupId) -> bool {
     && w.relays.contains_key(g) && w.relays[g] == ext_relays(w.mls[g].ext)
 }
 
+// C08 "never to a different group": the Nostr group id n is the one in force for a stored group other than g
+pub open spec fn nostr_id_owned_by_other_group(groups: Map<GroupId, Group>, n: [u8; 32], g: GroupId) -> bool {
+    exists|o: GroupId| o != g && #[trigger] groups.contains_key(o) && groups[o].nostr_group_id == n
+}
+
 // C06: a refused event leaves nothing behind but (at most) its own failure record
 pub open spec fn only_failure_record(a: World, b: World, id: EventId) -> bool {
     b == (World { processed: b.processed, ..a })
